@@ -1057,6 +1057,12 @@ def match_finding(f, k):
         return False
     if r.get("exc") and (f.get("got") or {}).get("exc") != r["exc"]:
         return False
+    if r.get("cls") and inp.get("cls") != r["cls"]:
+        return False
+    if r.get("null_in") and inp.get("null") not in r["null_in"]:
+        return False
+    if r.get("alt") and inp.get("alt") != r["alt"]:
+        return False
     return True
 
 
